@@ -198,6 +198,38 @@ func syncMethod(info *types.Info, c *ast.CallExpr) (string, ast.Expr, bool) {
 	return hook, x, true
 }
 
+// onceDo reports whether c is a call of (*sync.Once).Do and returns the pointer-valued
+// receiver.
+func onceDo(info *types.Info, c *ast.CallExpr) (ast.Expr, bool) {
+	if len(c.Args) != 1 {
+		return nil, false
+	}
+	se, ok := c.Fun.(*ast.SelectorExpr)
+	if !ok {
+		return nil, false
+	}
+	s := info.Selections[se]
+	if s == nil || s.Kind() != types.MethodVal || len(s.Index()) != 1 {
+		return nil, false
+	}
+	fn, ok := s.Obj().(*types.Func)
+	if !ok || fn.Pkg() == nil || fn.Pkg().Path() != "sync" || fn.Name() != "Do" {
+		return nil, false
+	}
+	recv := fn.Type().(*types.Signature).Recv().Type()
+	if p, ok := recv.(*types.Pointer); ok {
+		recv = p.Elem()
+	}
+	if named, ok := recv.(*types.Named); !ok || named.Obj().Name() != "Once" {
+		return nil, false
+	}
+	x := se.X
+	if _, isPtr := info.TypeOf(x).Underlying().(*types.Pointer); !isPtr {
+		x = &ast.UnaryExpr{Op: token.AND, X: x}
+	}
+	return x, true
+}
+
 // pipeHook returns the simhook wrapper for an io.Pipe end, "" for anything else.
 func pipeHook(t types.Type) string {
 	p, ok := t.(*types.Pointer)
@@ -271,6 +303,10 @@ func rewriteFile(p *packages.Package, f *ast.File) bool {
 				if hook, x, ok := syncMethod(info, ce); ok && !strings.Contains(hook, "Try") {
 					n.X = call(hook, x)
 					count("sync." + hook)
+					changed = true
+				} else if x, ok := onceDo(info, ce); ok {
+					n.X = call("OnceDo", x, ce.Args[0])
+					count("sync.Once.Do")
 					changed = true
 				}
 			}
@@ -389,7 +425,7 @@ func rewriteFile(p *packages.Package, f *ast.File) bool {
 		case *ast.SelectorExpr:
 			if obj, ok := info.Uses[n.Sel].(*types.TypeName); ok && obj.Pkg() != nil && obj.Pkg().Path() == "sync" {
 				switch obj.Name() {
-				case "WaitGroup", "Once", "Locker":
+				case "WaitGroup", "Locker":
 					uncontrolled(fset, n.Pos(), "sync."+obj.Name())
 				}
 			}
